@@ -55,7 +55,7 @@ func (s c12Sig) String() string {
 	if s.variadic != nil {
 		ps = append(ps, "..."+s.variadic.String())
 	}
-	return "func(" + strings.Join(ps, ", ") + ") " + []string{"()", "(string)", "(string, error=nil)", "(string, error!=nil)", "(error=nil)", "(error!=nil)"}[s.result]
+	return "func(" + strings.Join(ps, ", ") + ") " + []string{"()", "(string)", "(string, error=nil)", "(string, error!=nil)", "(error=nil)", "(error!=nil)", "(string, *errT=nil)", "(string, *errT!=nil)"}[s.result]
 }
 
 func (s c12Sig) params() []reflect.Type {
@@ -156,6 +156,9 @@ func (e *c12Env) makeFunc(s c12Sig) interface{} {
 		outs = []reflect.Type{c12TString, c12TErr}
 	case 4, 5:
 		outs = []reflect.Type{c12TErr}
+	case 6, 7:
+		// the error result is declared as a concrete pointer type: nil is no error
+		outs = []reflect.Type{c12TString, reflect.TypeOf((*c12PtrErr)(nil))}
 	}
 	ft := reflect.FuncOf(s.params(), outs, s.variadic != nil)
 	fn := reflect.MakeFunc(ft, func(in []reflect.Value) []reflect.Value {
@@ -184,6 +187,10 @@ func (e *c12Env) makeFunc(s c12Sig) interface{} {
 		switch s.result {
 		case 1:
 			return []reflect.Value{reflect.ValueOf("RET")}
+		case 6:
+			return []reflect.Value{reflect.ValueOf("RET"), reflect.ValueOf((*c12PtrErr)(nil))}
+		case 7:
+			return []reflect.Value{reflect.ValueOf("RET"), reflect.ValueOf(&c12PtrErr{e.sentinel})}
 		case 2, 3:
 			return []reflect.Value{reflect.ValueOf("RET"), errV}
 		case 4, 5:
@@ -193,6 +200,12 @@ func (e *c12Env) makeFunc(s c12Sig) interface{} {
 	})
 	return fn.Interface()
 }
+
+// c12PtrErr is an error type used through its pointer.
+type c12PtrErr struct{ err error }
+
+func (e *c12PtrErr) Error() string { return "ptr-err: " + e.err.Error() }
+func (e *c12PtrErr) Unwrap() error { return e.err }
 
 type c12Arg struct {
 	name string
@@ -321,13 +334,13 @@ func c12Sigs(maxFixed int) []c12Sig {
 	for _, ft := range fixedTuples {
 		for _, m := range []reflect.Type{nil, c12TMap, c12THMap} {
 			for _, c := range []reflect.Type{nil, c12THC, c12THCI} {
-				for res := 0; res < 6; res++ {
+				for res := 0; res < 8; res++ {
 					sigs = append(sigs, c12Sig{fixed: ft, mapT: m, ctxT: c, result: res})
 				}
 			}
 		}
 		for _, v := range []reflect.Type{c12TString, c12TInt, c12TIface, c12TFloat} {
-			for res := 0; res < 6; res++ {
+			for res := 0; res < 8; res++ {
 				sigs = append(sigs, c12Sig{fixed: ft, variadic: v, result: res})
 			}
 		}
@@ -480,11 +493,11 @@ func c12Call(b *core.B, s c12Sig, argIdx []int, hasBlock bool, method string) {
 		return
 	}
 	switch s.result {
-	case 3, 5:
+	case 3, 5, 7:
 		if res.Err == nil || !errors.Is(res.Err, env.sentinel) || res.Out != "" {
 			b.Violate("error-result-not-propagated|"+cls, fmt.Sprintf("the helper returned a non-nil error; Render gave %s", res))
 		}
-	case 1, 2:
+	case 1, 2, 6:
 		if res.Err != nil || res.Out != "[RET]" {
 			b.Violate("first-result-not-the-value|"+cls, fmt.Sprintf("want [RET], got %s", res))
 		}
@@ -689,7 +702,7 @@ func init() {
 	core.Register(&core.Prop{
 		ID:         "C12",
 		Level:      "exploration",
-		Rule:       "helper signatures built at run time with reflect.FuncOf/MakeFunc (recording bodies): 0-2 fixed parameters over {string, int, bool, interface{}, *T, []int, float64} x trailing {none, map[string]interface{}, hctx.Map} x {none, plush.HelperContext, hctx.HelperContext} or a variadic tail {...string, ...int, ...interface{}, ...float64} x 6 result shapes ((), (T), (T,nil), (T,err), (nil error), (err)) signatures, crossed with every call of 0-3 arguments over 11 argument kinds (string, int, float, nil, hash literal, pointer variable, bool, recorded call, []int variable, typed nil pointer, nil []string) with and without a block (all pairs in thorough, a stratified 1/60 sample in quick), plus 8 recording methods on struct receivers (value receiver, pointer receiver, receiver reached through a field) crossed with the same calls, plus random 3-parameter signatures and 4-argument calls. Oracle: a reference binder written from the property text predicts accept/reject and the exact received arguments; the recording body reports what arrived (values, zero values for nil, auto-supplied map/context incl. the block rendered through the context, variadic tail), the recorded argument trace, invocation count, and result handling. Non-trivial = judged (signature, call) pair.",
+		Rule:       "helper signatures built at run time with reflect.FuncOf/MakeFunc (recording bodies): 0-2 fixed parameters over {string, int, bool, interface{}, *T, []int, float64} x trailing {none, map[string]interface{}, hctx.Map} x {none, plush.HelperContext, hctx.HelperContext} or a variadic tail {...string, ...int, ...interface{}, ...float64} x 8 result shapes (incl. an error result declared as a pointer type, nil and non-nil) ((), (T), (T,nil), (T,err), (nil error), (err)) signatures, crossed with every call of 0-3 arguments over 11 argument kinds (string, int, float, nil, hash literal, pointer variable, bool, recorded call, []int variable, typed nil pointer, nil []string) with and without a block (all pairs in thorough, a stratified 1/60 sample in quick), plus 8 recording methods on struct receivers (value receiver, pointer receiver, receiver reached through a field) crossed with the same calls, plus random 3-parameter signatures and 4-argument calls. Oracle: a reference binder written from the property text predicts accept/reject and the exact received arguments; the recording body reports what arrived (values, zero values for nil, auto-supplied map/context incl. the block rendered through the context, variadic tail), the recorded argument trace, invocation count, and result handling. Non-trivial = judged (signature, call) pair.",
 		Assume:     []string{"too few non-optional arguments is not judged (the property is silent)", "assignability is Go's reflect AssignableTo, as the property words it"},
 		Batches:    batchesQT(16, 64),
 		Run:        c12Run,
